@@ -221,6 +221,15 @@ func resolverDeviates(doc *JV, base string) bool {
 			}
 		}
 	}
+	// an absolute IRI the wrapper refuses or does not print back unchanged (it passes through it when
+	// used as @vocab in json-ld-1.0, as @base, or in a position resolved against a base)
+	for _, v := range strs {
+		if goodIRI(v) {
+			if pv, err := iri.ParseIRI(v); err != nil || pv.String() != v {
+				return true
+			}
+		}
+	}
 	for _, b := range abs {
 		if g, ok := goResolve(b, ""); !ok || (g != rfcResolve(b, "") && g != b) {
 			return true
